@@ -326,6 +326,7 @@ type harness struct {
 	nEval   int
 	nextID  int
 	retries int
+	fx      bool // the implementation has the proposed repair of calcStatusCode (probed)
 	dist    map[string]bool
 	base    map[string]baseResp
 	repDef  map[string]string
@@ -489,8 +490,8 @@ func (h *harness) statusRequest(a *lib.TLAsset, r *lib.TLRep, cfg lib.TLCfg, cod
 	if r.Kind == "audio" {
 		audio = fmt.Sprintf("(Some (%d, %d))", r.Timescale, frameDur(r))
 	}
-	h.terms = append(h.terms, fmt.Sprintf("CStatus %s %s %d %s %s %s %s %s %d %d %d %d %s",
-		id, h.repName(a.Path+"/"+ref.ID, ref.VodRep), a.LoopMS, cfg.CoqCfg(), codesCoq(codes), lib.CoqString(r.ID), audio, am, segID, now,
+	h.terms = append(h.terms, fmt.Sprintf("CStatus %s %s %s %d %s %s %s %s %s %d %d %d %d %s",
+		id, lib.Cbool(h.fx), h.repName(a.Path+"/"+ref.ID, ref.VodRep), a.LoopMS, cfg.CoqCfg(), codesCoq(codes), lib.CoqString(r.ID), audio, am, segID, now,
 		base.Status, status, lib.CoqString(modelPanic(resp.Panic))))
 }
 
@@ -740,8 +741,8 @@ func (h *harness) calcSweep() {
 				default:
 					h.dist[fmt.Sprintf("syn%d/%s/%d/%s", t, cfg.URLPrefix(), n, hit)] = true
 				}
-				h.terms = append(h.terms, fmt.Sprintf("CCalc %s %s %d %s %s %s ByNumber %d %d %s %s",
-					id, name, loopMS, cfg.CoqCfg(), codesCoq(codes), lib.CoqString(vr.ID), segID, now, lib.Zs(obs), lib.CoqString(modelPanic(pan))))
+				h.terms = append(h.terms, fmt.Sprintf("CCalc %s %s %s %d %s %s %s ByNumber %d %d %s %s",
+					id, lib.Cbool(h.fx), name, loopMS, cfg.CoqCfg(), codesCoq(codes), lib.CoqString(vr.ID), segID, now, lib.Zs(obs), lib.CoqString(modelPanic(pan))))
 			}
 		}
 	}
@@ -1318,6 +1319,16 @@ func run(c *lib.Ctx) error {
 		return err
 	}
 	h := &harness{c: c, ls: ls, rng: rand.New(rand.NewSource(c.Seed)), dist: map[string]bool{}, base: map[string]baseResp{}, repDef: map[string]string{}}
+	// Which calcStatusCode is under test: as it is, or with proposed_fixes/C14-statuscode-cycle-start.diff.
+	// Segment 5 of testpic_2s with start_30 is the second segment of the cycle that starts at 8 s: the
+	// repaired code answers 404, the code as it is panics (finding c14-start-time-panic).
+	probe := ls.GetRaw("/livesim2/start_30/statuscode_[{cycle:8,rsq:1,code:404}]/testpic_2s/V300/5.m4s?nowMS=42037")
+	h.fx = probe.Panic == "" && probe.Status == 404
+	if h.fx {
+		c.Res.Notes = append(c.Res.Notes, "calcStatusCode under test has the cycle-start repair: the model variant fx = true (theorems C14_status_repaired, C14_status_number_repaired) is used")
+	} else {
+		c.Res.Notes = append(c.Res.Notes, "calcStatusCode under test is the unrepaired one: model variant fx = false")
+	}
 	if c.Replay != "" {
 		in, err := lib.LoadReplayInput[c14in](c.Replay)
 		if err != nil {
